@@ -163,6 +163,38 @@ func c02Links(r *Result) {
 		}
 		return f
 	}
+	// EXEC-DUE-STRICT: ExecuteVote promotes an unresolved dispute only for DisputeEndTime < BlockTime (strict); the hook's
+	// due-test must be that same strict relation (or status Resolved), else the block with BlockTime == DisputeEndTime fails
+	if cc := need("x/dispute.CheckClosedDisputesForExecution"); cc != nil {
+		ps := AnalyzePaths(cc, []Atom{
+			{Name: "afterEnd", Cond: func(rel *Term) (bool, bool) {
+				if rel.Op == "<" && len(rel.Args) == 2 && rel.Args[0].Contains("Dispute.DisputeEndTime") && rel.Args[1].Contains("BlockTime") {
+					return true, true
+				}
+				if rel.Op == "call:(time.Time).After" && len(rel.Args) == 2 && rel.Args[1].Contains("Dispute.DisputeEndTime") {
+					return true, true
+				}
+				if rel.Op == "call:(time.Time).Before" && len(rel.Args) == 2 && rel.Args[0].Contains("Dispute.DisputeEndTime") {
+					return true, true
+				}
+				return false, false
+			}},
+			{Name: "resolved", Cond: func(rel *Term) (bool, bool) {
+				if rel.Op == "==" && rel.Contains("Dispute.DisputeStatus") {
+					return true, true
+				}
+				return false, false
+			}}})
+		n := 0
+		for _, cs := range P.CallSitesIn(cc) {
+			if cs.Callee == "(x/dispute/keeper.Keeper).ExecuteVote" {
+				n++
+				bad := ps.Require(cs.Instr, func(v map[string]bool) bool { return v["afterEnd"] || v["resolved"] })
+				link(len(bad) == 0, "EXEC-DUE-STRICT", "x/dispute.CheckClosedDisputesForExecution # ExecuteVote is called only strictly after the dispute end (or for a resolved dispute)", P.Pos(cs.Pos()), fmt.Sprintf("valuations: %v", bad))
+			}
+		}
+		link(n == 1, "EXEC-DUE-STRICT", "x/dispute.CheckClosedDisputesForExecution # one ExecuteVote call", P.Pos(cc.Pos()), fmt.Sprint(n))
+	}
 
 	// BURN-BOUNDED: the amounts ExecuteVote derives from SlashAmount - BurnAmount stay non-negative because every writer of
 	// BurnAmount keeps it within SlashAmount: the first round stores a twentieth of the fee, a later round adds its fee only
